@@ -190,6 +190,10 @@ func (w *WaitGroup) Add(delta int) {
 
 func (w *WaitGroup) Done() { w.Add(-1) }
 
+// ModelCount is the counter as maintained under controlled runs (Add/Done
+// executed while a run was active); harness end-state checks read it.
+func (w *WaitGroup) ModelCount() int { return w.n }
+
 func (w *WaitGroup) Wait() {
 	if r := sched.Active(); r != nil {
 		r.Point("WaitGroup.Wait")
